@@ -21,6 +21,8 @@ thread_local! {
     /// true while the executor is polling futures of the library / calling its functions and
     /// no simulated trait method is running. Used to attribute panics.
     pub static IN_SUT: Cell<bool> = const { Cell::new(false) };
+    /// the same mark, visible to the thread that waits for this run (hang attribution)
+    pub static SUT_FLAG: std::cell::RefCell<Option<std::sync::Arc<std::sync::atomic::AtomicBool>>> = const { std::cell::RefCell::new(None) };
     /// set on threads that execute simulated runs (their panics are caught and attributed)
     pub static IS_RUN_THREAD: Cell<bool> = const { Cell::new(false) };
 }
@@ -30,13 +32,23 @@ pub struct EnvGuard(bool);
 impl EnvGuard {
     pub fn enter() -> Self {
         let prev = IN_SUT.with(|c| c.replace(false));
+        set_shared_mark(false);
         EnvGuard(prev)
     }
 }
 impl Drop for EnvGuard {
     fn drop(&mut self) {
         IN_SUT.with(|c| c.set(self.0));
+        set_shared_mark(self.0);
     }
+}
+
+fn set_shared_mark(v: bool) {
+    SUT_FLAG.with(|f| {
+        if let Some(a) = f.borrow().as_ref() {
+            a.store(v, std::sync::atomic::Ordering::Relaxed);
+        }
+    });
 }
 
 /// Guard used by the executor around polls of library futures.
@@ -44,12 +56,14 @@ pub struct SutGuard(bool);
 impl SutGuard {
     pub fn enter() -> Self {
         let prev = IN_SUT.with(|c| c.replace(true));
+        set_shared_mark(true);
         SutGuard(prev)
     }
 }
 impl Drop for SutGuard {
     fn drop(&mut self) {
         IN_SUT.with(|c| c.set(self.0));
+        set_shared_mark(self.0);
     }
 }
 
